@@ -48,7 +48,7 @@ def run(tier, rep):
             text, evs = tensorirpipe.record(y)
         except Exception:
             continue
-        traces.append(tensorirpipe.prepare(evs))
+        traces.append(tensorirpipe.prepare(evs, y))
         tsrc.append(m)
         segs = tensorirpipe.segments(evs)
         n = len(segs)
